@@ -1,4 +1,5 @@
 import Convergen.Model.Method
+import Convergen.Model.Options
 import Convergen.Generated.Decisions
 /-!
 # Bridge: the model takes the same path as the Go code (decision skeletons)
@@ -261,5 +262,69 @@ theorem createFunction_follows_source (env : Env) (eng : Engine) (m : MethodEntr
       cases h8 : (createVar env src _).external <;>
       simp [h8] <;>
       (split <;> first | rfl | simp_all))
+
+/-! ## the shape checks of functions named by `:conv` and by `:preprocess` / `:postprocess` -/
+
+def lookupConverterOn (env : Env) (name : String) (sig : FuncSig) (label : String) : Except String (TyId × TyId × Bool) :=
+  match label with
+  | "err=Errorf(%v: function %v not found); return" => .error s!"function {name} not found"
+  | "err=Errorf(%v: %v isn't a function); return" => .error s!"{name} isn't a function"
+  | "err=Errorf(%v: function %v cannot use as a converter); return" => .error s!"function {name} cannot use as a converter"
+  | "argType=sig.Params().At(0).Type(); retType=sig.Results().At(0).Type(); …#99d7a514" =>
+    .ok (sig.params.headD 0, sig.results.headD 0, sig.results.length == 2 && env.isErrorType (sig.results.getD 1 0))
+  | _ => .error "lookupConverterFunc: unknown path"
+
+/-- **`lookupConverterFunc` follows the source**: found, a function, exactly one parameter, one or two
+results, the second an `error` — tested in the order of the Go code -/
+theorem lookupConverterFunc_follows_source (env : Env) (sc : Scope) (name : String) :
+    lookupConverterFunc env sc name =
+      (match lookupType env sc name with
+       | .notFound => lookupConverterOn env name default (Generated.Decisions.lookupConverterFunc true false false false false false false)
+       | .notFunc => lookupConverterOn env name default (Generated.Decisions.lookupConverterFunc false false false false false false false)
+       | .func sig => lookupConverterOn env name sig (Generated.Decisions.lookupConverterFunc false true
+           (sig.params.length != 1) (sig.results.length < 1) (2 < sig.results.length) (sig.results.length == 2)
+           (env.isErrorType (sig.results.getD 1 0)))) := by
+  unfold lookupConverterFunc Generated.Decisions.lookupConverterFunc
+  cases lookupType env sc name with
+  | notFound => simp [lookupConverterOn]
+  | notFunc => simp [lookupConverterOn]
+  | func sig =>
+    simp only
+    rcases hp : sig.params with _ | ⟨a, _ | ⟨b, ps⟩⟩ <;> rcases hr : sig.results with _ | ⟨r, _ | ⟨e, _ | ⟨x, rs⟩⟩⟩ <;>
+      simp [lookupConverterOn, hp, hr] <;>
+      (cases env.isErrorType e <;> simp)
+
+def lookupManipulatorOn (env : Env) (name optName pos : String) (sig : FuncSig) (label : String) : ManipLookup :=
+  match label with
+  | "return nil, Errorf(%v: function %v not found)" => .error s!"function {name} not found"
+  | "return nil, Errorf(%v: %v isn't a function)" => .error s!"{name} isn't a function"
+  | "return nil, Errorf(%v: function %v cannot use for %v func)" => .error s!"function {name} cannot use for {optName} func"
+  | "return &option.Manipulator{ Func: obj, DstSide: sig.Params().At(0).Typ …#fda8e394" =>
+    .ok { name := sig.name, pkgPath := sig.pkgPath, exported := sig.exported, dstSide := sig.params.headD 0,
+          srcSide := sig.params.getD 1 0, additionalArgs := sig.params.drop 2, pos := pos,
+          retError := sig.results.length == 1 && env.isErrorType (sig.results.headD 0) }
+  | _ => .error "lookupManipulatorFunc: unknown path"
+
+/-- **`lookupManipulatorFunc` follows the source**: at most one result and that an `error`, at least
+two parameters (the second test is the repair of the `makeslice` crash) -/
+theorem lookupManipulatorFunc_follows_source (env : Env) (sc : Scope) (name optName pos : String) :
+    lookupManipulatorFunc env sc name optName pos =
+      (match lookupType env sc name with
+       | .notFound => lookupManipulatorOn env name optName pos default (Generated.Decisions.lookupManipulatorFunc true false false false false false)
+       | .notFunc => lookupManipulatorOn env name optName pos default (Generated.Decisions.lookupManipulatorFunc false false false false false false)
+       | .func sig => lookupManipulatorOn env name optName pos sig (Generated.Decisions.lookupManipulatorFunc false true
+           (1 < sig.results.length) (sig.results.length == 1) (env.isErrorType (sig.results.headD 0))
+           (sig.params.length < 2))) := by
+  unfold lookupManipulatorFunc Generated.Decisions.lookupManipulatorFunc badHookResult
+  cases lookupType env sc name with
+  | notFound => simp [lookupManipulatorOn]
+  | notFunc => simp [lookupManipulatorOn]
+  | func sig =>
+    simp only
+    rcases hp : sig.params with _ | ⟨a, _ | ⟨b, ps⟩⟩ <;> rcases hr : sig.results with _ | ⟨r, _ | ⟨e, rs⟩⟩ <;>
+      simp [lookupManipulatorOn, hp, hr] <;>
+      (try (cases env.isErrorType _ <;> simp)) <;>
+      (try (have h2 : ¬ (ps.length + 1 + 1 < 2) := by omega
+            simp [h2]))
 
 end Convergen.Bridge.Decisions
